@@ -14,8 +14,8 @@ def worst_region(t, xs):
         rc = region_class(t, d, x)
         k, o = t.knots[d], t.orders[d]
         na = len(k) - o - 1
-        if rc == "upper-end" and k[na - 1] == k[na]:
-            rc = "upper-end-repeated"
+        if rc == "upper-end" and k[o] == k[na]:
+            rc = "upper-end-repeated"      # the fully supported range is the single point x: the one case left of D17
         rc = rc.replace("rmargin-on", "rmargin").replace("rmargin-off", "rmargin").replace("lmargin-on", "lmargin").replace("lmargin-off", "lmargin")
         if rc in pr:
             best = min(best, pr.index(rc))
@@ -62,7 +62,7 @@ class C01(EvalCheck):
         if nco > 20000 or not all(math.isfinite(c) for c in t.coefs):
             return fails
         reg = worst_region(t, xs)
-        D17 = "C01:x==knots[naxes]&&knots[naxes-1]==knots[naxes]"
+        D17 = "C01:x==knots[order]==knots[naxes]"
         ps = oracle_exact.PointSpec(t.orders, t.knots, t.coefs, xs)
         self._ps = ps
         labels = self.checks_for(t, q, iout)
